@@ -58,7 +58,7 @@ KINDS = [
     "GetDefaultCategory", "GetDefaultUnit/Value", "GetUnits", "GetBaseUnit", "GetCategoryInfo", "CheckCategoryUnit", "CheckQuantityTypeUnit", "GetQuantityType", "mul", "add", "sub-reversed", "div",
     "Array.IsValid", "Array.GetValues", "FixedArray", "FractionScalar", "ObtainQuantity", "ObtainQuantity(u)", "Quantity(c,u)", "derived-sum", "derived-product", "CreateCopy(unit)", "pickle",
     "GetUnitName", "FindUnitCase", "CheckValueForCategory", "quantity.GetValidUnits", "ChangeScalars", "compare",
-    "GetUnits()/GetInfos()", "GetInfo", "FindSimilarUnitMatches", "IsValidCategory/CheckQuantityType", "quantity getters", "db.Sum/Multiply",
+    "ObtainQuantity(u,c,caption)", "ObtainQuantity(u,None,caption)", "GetUnits()/GetInfos()", "GetInfo", "FindSimilarUnitMatches", "IsValidCategory/CheckQuantityType", "quantity getters", "db.Sum/Multiply",
 ]  # fmt: skip
 
 
@@ -195,6 +195,13 @@ def run_query(db, q):
         elif kind == "compare":
             a, b = Scalar(c, x, u), Scalar(c2, 2.0, v)
             r = [a < b, a == b, a >= b]
+        elif kind in ("ObtainQuantity(u,c,caption)", "ObtainQuantity(u,None,caption)"):
+            # the rarely used third argument: captioned and caption-less requests for one (category, unit) are
+            # different quantities and must not answer for each other
+            cap = ["survey tape", "Feeeet", ""][int(abs(x)) % 3]
+            qq = ObtainQuantity(u, c if "u,c," in kind else None, cap)
+            plain = ObtainQuantity(u, c) if "u,c," in kind else ObtainQuantity(u)
+            r = [qq, plain, qq == plain, Scalar(x, u).GetQuantity(), Scalar(c, x, u) == Scalar(qq, x), repr(Scalar(x, u))]
         elif kind == "GetUnits()/GetInfos()":
             r = [sorted(db.GetUnits()), sorted(i.unit for i in db.GetInfos()), sorted(db.GetUnitNames()), sorted(db.GetQuantityTypes())]
         elif kind == "GetInfo":
